@@ -3,6 +3,7 @@ package main
 import (
 	"bytes"
 	"fmt"
+	"sync"
 
 	"github.com/cbehopkins/gkvlite"
 
@@ -285,12 +286,20 @@ func (w *World) Visit(h *StoreH, name string, asc bool, api string, tid int, wv 
 			} else {
 				it = c.IterateDescend(target, wv)
 			}
+			exited := iterExitWatch()
 			for it.Next() {
 				if !add(it.Result(), -1) {
 					break
 				}
 			}
 			it.Close()
+			// the producer goroutine unpins the version asynchronously: wait for
+			// it (hook event "iter.exit") so that later steps are deterministic
+			select {
+			case <-exited:
+			case <-timeAfter(w.opTimeout):
+				panic("iterator producer goroutine did not exit after Close()")
+			}
 			err = it.Err()
 		}
 	})
@@ -466,4 +475,28 @@ func (w *World) Crash(f *memfile.File, upto, torn int) *memfile.File {
 	w.files[g.ID] = g
 	w.emit(Ev{"e": "Crash", "f": f.ID, "f2": g.ID, "upto": upto, "torn": torn, "len": len(img)})
 	return g
+}
+
+// iterExitWatch arms the "iter.exit" hook; the returned channel is closed when
+// an iterator's producer goroutine has returned.
+var iterExitMu sync.Mutex
+var iterExitCh chan struct{}
+
+func iterExitWatch() <-chan struct{} {
+	iterExitMu.Lock()
+	defer iterExitMu.Unlock()
+	ch := make(chan struct{})
+	iterExitCh = ch
+	gkvlite.VerifEventHook = func(ev string, c *gkvlite.Collection, root uintptr, refs int64, chained uintptr) {
+		if ev != "iter.exit" {
+			return
+		}
+		iterExitMu.Lock()
+		if iterExitCh != nil {
+			close(iterExitCh)
+			iterExitCh = nil
+		}
+		iterExitMu.Unlock()
+	}
+	return ch
 }
